@@ -11,6 +11,7 @@ import MstVerif.Model.Traverse
 import MstVerif.Model.Diff
 import MstVerif.Model.Sync
 import MstVerif.Model.DiffDepth
+import MstVerif.Proofs.Defs
 import Std.Data.HashMap
 
 namespace Mst.Driver
@@ -50,17 +51,32 @@ def showBytes (bs : Bytes) : String := "x" ++ hexOf bs
 def hc : HashCfg Bytes Bytes Bytes :=
   { kb := id, vb := id, db := id, h := Sip.hash128 0 0 }
 
-def showEvent : Event Bytes Bytes Bytes → String
-  | .visitPage L c n h =>
-    "P" ++ toString L ++ ":" ++ (match c with | none => "-" | some d => hexOf d) ++ ":" ++
-      toString n ++ ":" ++ (if h then "h" else "l")
-  | .preNode k v => "<" ++ hexOf k ++ ":" ++ hexOf v
-  | .visitNode k v => "=" ++ hexOf k ++ ":" ++ hexOf v
-  | .postNode k v => ">" ++ hexOf k ++ ":" ++ hexOf v
-  | .postPage L => "p" ++ toString L
+mutual
+/-- cache-free ("true") digests of all pages in visit (pre-)order -/
+def trueDigestsPg : Pg Bytes Bytes Bytes → List Bytes
+  | .none => []
+  | .some L c n h =>
+    (match (Pg.some L c n h).trueHash hc with | some d => d | none => []) :: (trueDigestsNd n ++ trueDigestsPg h)
+def trueDigestsNd : Nd Bytes Bytes Bytes → List Bytes
+  | .nil => []
+  | .cons lt _ _ tl => trueDigestsPg lt ++ trueDigestsNd tl
+end
 
-def showEvents (es : List (Event Bytes Bytes Bytes)) : String :=
-  "[" ++ " ".intercalate (es.map showEvent) ++ "]"
+/-- `visit_page` events additionally carry the page's TRUE digest (5th field): the comparer accepts
+an implementation cache field that is either absent or equal to it — caches must be sound, the
+invalidation policy itself is not part of any property. -/
+def showEventsGo : List (Event Bytes Bytes Bytes) → List Bytes → List String
+  | [], _ => []
+  | .visitPage L c n h :: es, ds =>
+    ("P" ++ toString L ++ ":" ++ (match c with | none => "-" | some d => hexOf d) ++ ":" ++
+      toString n ++ ":" ++ (if h then "h" else "l") ++ ":" ++ hexOf (ds.headD [])) :: showEventsGo es ds.tail
+  | .preNode k v :: es, ds => ("<" ++ hexOf k ++ ":" ++ hexOf v) :: showEventsGo es ds
+  | .visitNode k v :: es, ds => ("=" ++ hexOf k ++ ":" ++ hexOf v) :: showEventsGo es ds
+  | .postNode k v :: es, ds => (">" ++ hexOf k ++ ":" ++ hexOf v) :: showEventsGo es ds
+  | .postPage L :: es, ds => ("p" ++ toString L) :: showEventsGo es ds
+
+def showEventsOf (root : Pg Bytes Bytes Bytes) (es : List (Event Bytes Bytes Bytes)) : String :=
+  "[" ++ " ".intercalate (showEventsGo es (trueDigestsPg root)) ++ "]"
 
 def showKVs (l : List (Bytes × Bytes)) : String :=
   "[" ++ " ".intercalate (l.map fun (k, v) => hexOf k ++ ":" ++ hexOf v) ++ "]"
@@ -219,7 +235,7 @@ def step (st : St) (line : String) : St × String :=
       | some (.tree tr _) =>
         let stop? := if stop = "-" then some none else stop.toNat?.map some
         match stop? with
-        | some s => (st, showEvents (runRecorded s tr.root))
+        | some s => (st, showEventsOf tr.root (runRecorded s tr.root))
         | none => (st, "bad-op")
       | some .poisoned => (st, "poisoned")
       | none => (st, "bad-op")
@@ -369,7 +385,7 @@ def step (st : St) (line : String) : St × String :=
     match r.toNat? with
     | some r =>
       match st.reps[r]? with
-      | some (rep, _) => (st, showEvents (runRecorded none rep.tree.root))
+      | some (rep, _) => (st, showEventsOf rep.tree.root (runRecorded none rep.tree.root))
       | none => (st, "bad-op")
     | none => (st, "bad-op")
   | ["lvl", d, base] =>
